@@ -125,6 +125,8 @@ def history_cases(ctx, rng, scale, add, dist, failures):
         vq = VectorQuantize(**kw)
         ops = [rng.choice(['train', 'train', 'eval', 'frozen', 'load', 'setter', 'write']) for _ in range(rng.choice([4, 6]))]
         ops = [['eval', 'train'][ci % 2]] + ops + ['eval']
+        if cosine and thr > 0:
+            ops = ['train', 'train-tiny', 'eval'] + ops       # dead-code revival from a batch whose norms are below the l2norm eps
         for oi, op in enumerate(ops):
             if op == 'load':
                 other = VectorQuantize(**kw)
@@ -144,7 +146,15 @@ def history_cases(ctx, rng, scale, add, dist, failures):
                 dist['hist_writes'] += 1
                 continue
             vq.train(op != 'eval')
-            x = torch.randn(2, rng.choice([2, 4]), kw['dim']) * rng.choice([1., 3.])
+            x = torch.randn(2, rng.choice([2, 4]), kw['dim']) * (1e-8 if op == 'train-tiny' else rng.choice([1., 3., 1e-8]))
+            if cosine and oi > 0 and ops[oi - 1] in ('train', 'train-tiny'):
+                # the library selects by the dot product with the stored code: that IS the cosine ranking only while every code is a unit vector,
+                # which every EMA update (revived codes included) must re-establish
+                nrm = vq._codebook.embed.norm(dim=-1)
+                if not torch.allclose(nrm, torch.ones_like(nrm), atol=1e-3):
+                    failures.append({'key': 'vq-history:cosine-codes-not-unit-norm', 'what': f'VectorQuantize({kw}) after ops {ops[:oi]}: cosine codebook holds codes of norm {float(nrm.min()):.3g} .. {float(nrm.max()):.3g}, '
+                                     'so the dot-product selection is no longer the nearest code in cosine similarity', 'case': dict(kw=kw, ops=ops[:oi])})
+                    break
             try:
                 with torch.no_grad():
                     _, recs = vqrec.record_call(vq, x, **({'freeze_codebook': True} if op == 'frozen' else {}))
@@ -157,7 +167,7 @@ def history_cases(ctx, rng, scale, add, dist, failures):
                     add(term(cosine, TOL_NAT, cb, r.xs[h], r.idx[h], r.quant[h], TOL_Q),
                         dict(kind='vq-history', kw=kw, mode=op, head=h, exact=False, ops=ops[:oi + 1]), nontrivial(cb, r.xs[h], r.idx[h]))
             dist['hist_calls'] += 1
-            dist['hist_revivals'] += int(op == 'train' and thr > 0 and any(r.before['embed'] != r.after['embed'] for r in recs))
+            dist['hist_revivals'] += int(op in ('train', 'train-tiny') and thr > 0 and any(r.before['embed'] != r.after['embed'] for r in recs))
 
 
 def magnitude_cases(ctx, rng, scale, add, dist, failures):
